@@ -3,7 +3,7 @@
   Property theorems only.  What is proved here is the part of the property that depends on key *contents*:
   the composite-key text `Bag._reduce_composite_pk` builds (model: `Model/Serial.lean`, tied to the real function on
   every run by the engine) is injective on non-empty lists of key-part texts, for ALL strings — including parts made of
-  the separator `,` and the escape character `*`.  `to_dict`/`to_json`/pickling themselves are observed differentially
+  the separator `,` and the escape character `*`, and so are the keys `Bag.to_dict` files objects and collection items under.  `to_dict`/`to_json`/pickling themselves are observed differentially
   by the engine (harness/engines/c31.py); nothing is claimed about them here.
 -/
 import PonyVerif.Lemmas.Serial
@@ -97,33 +97,19 @@ theorem C31_dict_key_injective (a b : List String) (ha : a ≠ []) (hb : b ≠ [
     | _ :: _ :: _, _, _, _, h, _ => simp at h
     | _, _ :: _ :: _, _, _, _, h' => simp at h'
 
-/-- FULL statement for collection items: distinct raw keys (same entity, hence same column count) are reported distinctly. -/
-def C31_collection_key_full : Prop :=
-  ∀ (pkAttrs : Nat) (a b : List String), 1 ≤ pkAttrs → pkAttrs ≤ a.length → a.length = b.length →
-    bagCollectionKey pkAttrs a = bagCollectionKey pkAttrs b → a = b
+/-- keys reported for the items of a collection attribute (test on the number of pk columns since 40bed00): distinct raw
+    keys of the related entity are reported distinctly, for every column count. -/
+theorem C31_collection_key (a b : List String) (ha : a ≠ []) (hb : b ≠ []) (hl : a.length = b.length) :
+    bagCollectionKey a = bagCollectionKey b → a = b :=
+  C31_dict_key_injective a b ha hb hl
 
-/-- The full statement is FALSE of the code as written: an entity whose primary key is ONE attribute referencing an entity
-    with a two-column key has `_pk_is_composite_ = False`, so only column 0 of the raw key is reported. Witness replayed
-    on real Pony by the engine on every run (D(bs=Set(B)), B(a=PrimaryKey(A)), A(PrimaryKey(x, y))). -/
-theorem C31_collection_key_full_false : ¬ C31_collection_key_full := by
-  intro h
-  have := h 1 ["k", "1"] ["k", "2"] (by decide) (by decide) (by decide) (by decide)
-  exact absurd this (by decide)
+example : bagCollectionKey ["k", "1"] ≠ bagCollectionKey ["k", "2"] := by decide
 
-/-- strongest partial statement: holds whenever the attribute test and the column count agree
-    (several pk attributes, or a single-column key). -/
-theorem C31_collection_key_partial (pkAttrs : Nat) (a b : List String) (ha : a ≠ []) (hl : a.length = b.length)
-    (guard : pkAttrs > 1 ∨ a.length = 1) : bagCollectionKey pkAttrs a = bagCollectionKey pkAttrs b → a = b := by
-  unfold bagCollectionKey
-  have hb : b ≠ [] := by intro hb; subst hb; simp at hl; exact ha hl
-  by_cases h : pkAttrs > 1
-  · simp only [h, if_true, Option.some.injEq, Key.text.injEq]
-    exact C31_pk_injective a b ha hb
-  · have h1 : a.length = 1 := guard.resolve_left h
-    simp only [h, if_false]
-    match a, b, h1, hl with
-    | [x], [y], _, _ => simp
-
-example : (2 > 1 ∨ ["k", "1"].length = 1) ∧ (["k", "1"] : List String) ≠ [] := by decide
+/-- WHAT THE FIX 40bed00 REPAIRED (about the OLD test, not about the current code): with the test on the number of pk
+    attributes, an entity whose primary key is ONE attribute referencing an entity with a two-column key had only column 0
+    of its raw key reported, so two distinct related objects were reported under the same key.  The regression input
+    harness/corpus/C31/collection-keys-single-pk-attribute-over-composite-key.json replays this on real Pony. -/
+theorem C31_old_attribute_test_collided :
+    bagCollectionKeyOld 1 ["k", "1"] = bagCollectionKeyOld 1 ["k", "2"] ∧ (["k", "1"] : List String) ≠ ["k", "2"] := by decide
 
 end PonyVerif.Props.C31
